@@ -96,6 +96,68 @@ theorem C04_for_keeps_rows (st : St) {ks : Keyed.KState} (texts : List (Nat × N
       it ∈ Keyed.somes (rerunFor st ks texts keys).1.w.storage :=
   ⟨rerunFor_kok st texts h hk, rfl, rerunFor_keeps st texts h hk⟩
 
+/-! ## `<ForEnumerate>`: the index every row is told -/
+
+/-- the index signals of the rows as a map from keys: `set_index(i)` / `view_fn(i, item)` write it -/
+def tell (m : Nat → Option Nat) (ki : Nat × Nat) : Nat → Option Nat :=
+  fun k => if k = ki.1 then some ki.2 else m k
+
+theorem tell_foldl_absent : ∀ (l : List (Nat × Nat)) (m : Nat → Option Nat) (k : Nat),
+    k ∉ l.map (·.1) → l.foldl tell m k = m k
+  | [], _, _, _ => rfl
+  | a :: l, m, k, h => by
+    simp only [List.map_cons, List.mem_cons, not_or] at h
+    rw [List.foldl_cons, tell_foldl_absent l _ k h.2]
+    simp [tell, h.1]
+
+theorem tell_foldl_mem : ∀ (l : List (Nat × Nat)) (m : Nat → Option Nat) (k i : Nat),
+    (l.map (·.1)).Nodup → (k, i) ∈ l → l.foldl tell m k = some i
+  | [], _, _, _, _, h => by simp at h
+  | a :: l, m, k, i, hnd, h => by
+    simp only [List.map_cons, List.nodup_cons] at hnd
+    rw [List.foldl_cons]
+    rcases List.mem_cons.1 h with h | h
+    · subst h
+      rw [tell_foldl_absent l _ k hnd.1]
+      simp [tell]
+    · exact tell_foldl_mem l _ k i hnd.2 h
+
+/-- **every row of a `<ForEnumerate>` knows its position after the list update** (model of
+`tachys::view::keyed` = `Leptos.Keyed.rebuild`, through C11): if before the update every row's index
+signal held its position in the old list, then after `set_index` was called for the surviving rows that
+the diff moved (`log.setIndex`) and the new rows were created with their index (`log.builds`), every
+row's index signal holds its position in the new list — for all duplicate-free lists, also when a row
+returns to the index it was created at.  (`RView.rerunRows` performs exactly these writes: `setIx` over
+`log.setIndex`, `rowStep` over `log.builds`.) -/
+theorem C04_enumerate_index (s : Keyed.KState) (to : List Nat) (hs : Keyed.Wf s) (hto : to.Nodup)
+    (m : Nat → Option Nat) (hm : ∀ i k, s.hashed[i]? = some k → m k = some i) :
+    ∀ j k, to[j]? = some k →
+      (Keyed.rebuild s to).w.log.builds.foldl tell ((Keyed.rebuild s to).w.log.setIndex.foldl tell m) k = some j := by
+  intro j k hjk
+  obtain ⟨hsn, hsm⟩ := Keyed.C11_set_index s to hs hto
+  obtain ⟨_, ⟨hbn, hbm⟩, _⟩ := Keyed.C11_identity s to hs hto
+  by_cases hk : k ∈ s.hashed
+  · -- a surviving row: no build; told iff it is not where it was
+    have hnb : k ∉ (Keyed.rebuild s to).w.log.builds.map (·.1) := by
+      intro hmem
+      obtain ⟨⟨k', i⟩, hin, rfl⟩ := List.mem_map.1 hmem
+      exact ((hbm k' i).1 hin).2 hk
+    rw [tell_foldl_absent _ _ k hnb]
+    by_cases hsame : s.hashed[j]? = some k
+    · have hns : k ∉ (Keyed.rebuild s to).w.log.setIndex.map (·.1) := by
+        intro hmem
+        obtain ⟨⟨k', i⟩, hin, rfl⟩ := List.mem_map.1 hmem
+        have h3 := (hsm k' i).1 hin
+        have hij : i = j := by
+          have h1 := h3.2.1
+          exact (List.getElem?_inj (List.getElem?_eq_some_iff.1 h1).1 hto).1 (h1.trans hjk.symm)
+        rw [hij] at h3
+        exact h3.2.2 hsame
+      rw [tell_foldl_absent _ _ k hns]
+      exact hm j k hsame
+    · exact tell_foldl_mem _ _ k j hsn ((hsm k j).2 ⟨hk, hjk, hsame⟩)
+  · exact tell_foldl_mem _ _ k j hbn ((hbm k j).2 ⟨hjk, hk⟩)
+
 /-- the special case of views without `either` (kept: `C04_untouched_nodes` is proved for this class) -/
 theorem C04_settles_leaves (p : Program) (ops : List Op) (hw : p.wf = true) (hs : allSigs p.defs = true)
     (hl : p.view.leaves = true) (hd : (run p ops).disposed = false) (hidle : ready (run p ops) = []) :
@@ -311,7 +373,7 @@ written afterwards -/
 def rowProg : Program :=
   { defs := [.sig 0, .sig 3],
     view := .elem "ul" []
-      (.forRows (.rd true 0) [[1, 2, 3], [3, 1]] (.scope 0 (.memo (.add (.rd true 1) Expr.key)) (.dynText (Expr.loc 0)))) }
+      (.forRows false (.rd true 0) [[1, 2, 3], [3, 1]] (.scope 0 (.memo (.add (.rd true 1) Expr.key)) (.dynText (Expr.loc 0)))) }
 
 example : rowProg.view.wfX 2 0 false = true ∧
     (run rowProg [.idle]).dom =
